@@ -4,9 +4,9 @@ import wg_lib
 META = {
     "property_id": "C02",
     "level": "proof",
-    "technique": "Coq: the same inductive invariant as C01 gives, at every configuration with no Add in flight, Count = sum of deltas, all handed-out channels closed at zero, a fresh Wait open above zero, and Wait returning within one micro-step; tied to the source by the regenerated IR listing and by schedule replay on the instrumented real code judged in-kernel by the monitor c02_ok, plus a WaitTimeout(5ms) probe under a watchdog",
+    "technique": "Coq: the same inductive invariant as C01 gives, at every configuration with no Add in flight, Count = sum of deltas, all handed-out channels closed at zero, a fresh Wait open above zero, and Wait returning within one micro-step; tied to the source by the regenerated IR term (eq_refl; the machine is proved to be its denotation) and by schedule replay on the instrumented real code judged in-kernel by the monitor c02_ok, plus a WaitTimeout(5ms) probe under a watchdog",
     "design_ref": "DESIGN.md §4 C02",
-    "level_text": "Proof: WGProofs.v shows for every number of goroutines, every program and every schedule that in every reachable configuration with no Add/Inc/Dec in flight Count() equals the sum of the deltas, that every channel ever returned by Wait is closed when that sum is zero, that a fresh Wait returns an open channel when it is positive, and that a thread inside Wait returns after one micro-step (two from the call) whatever other calls are pending - so WaitTimeout/WaitCTX always reach their select (Props/C02.v; closed under the global context). Tied to the source as C01: regenerated IR listing (eq_refl) and schedule replay on the real code, each trace judged by c02_ok in Coq and compared with the machine's trace; at the end of each replayed schedule the real WaitTimeout(5ms) runs under a watchdog and must return nil exactly when the sum is zero.",
+    "level_text": "Proof: WGProofs.v shows for every number of goroutines, every program and every schedule that in every reachable configuration with no Add/Inc/Dec in flight Count() equals the sum of the deltas, that every channel ever returned by Wait is closed when that sum is zero, that a fresh Wait returns an open channel when it is positive, and that a thread inside Wait returns after one micro-step (two from the call) whatever other calls are pending - so WaitTimeout/WaitCTX always reach their select (Props/C02.v; closed under the global context). Tied to the source as C01: regenerated IR term (eq_refl) whose denotation is the machine and schedule replay on the real code, each trace judged by c02_ok in Coq and compared with the machine's trace; at the end of each replayed schedule the real WaitTimeout(5ms) runs under a watchdog and must return nil exactly when the sum is zero.",
     "level_note": "Trusted: as C01. Partial: that the runtime timer/select of WaitTimeout/WaitCTX fires is Go runtime behaviour, exercised by the probe only. No axioms.",
 }
 
